@@ -206,3 +206,4 @@ Fixpoint reduce_loop_rec (fuel : nat) (g : graph) (q : nat) (ord : list nat) (D 
 Inductive call := CReduce (q : nat) | CPure.
 Definition apply_call (fuel : nat) (g : graph) (D : div) (c : call) : div :=
   match c with CPure => D | CReduce q => match ewd_q fuel g q D with Done (_, R, _) => R | OutOfFuel => D end end.
+Definition fst_res {A B} (r : res (A * B)) : option A := match r with Done (a, _) => Some a | OutOfFuel => None end.
